@@ -270,6 +270,66 @@ fn is_masked_literal(p: &Pat) -> bool {
     }
 }
 
+/// the byte set of a class as the compiler sees it (case folded, then negated)
+fn cls_set(c: &Cls, nc: bool) -> Vec<u8> { (0..=255u8).filter(|b| cls_has(c, nc, *b)).collect() }
+
+/// re/hir.rs class_to_masked_byte on this byte set: Some((value, mask)) when it claims the class
+/// is a masked byte; the bool tells whether that masked byte really denotes the same set
+fn class_to_masked_byte(set: &[u8]) -> Option<(u8, u8, bool)> {
+    if set.is_empty() { return None; }
+    let (smallest, largest) = (set[0], *set.last().unwrap());
+    let neg_mask = largest ^ smallest;
+    if set.iter().any(|b| b & smallest != smallest) { return None; }
+    if 1u32 << neg_mask.count_ones() != set.len() as u32 { return None; }
+    let mask = !neg_mask;
+    let denoted: Vec<u8> = (0..=255u8).filter(|b| b & mask == smallest).collect();
+    Some((smallest, mask, denoted == set))
+}
+
+/// root-cause hints for the classification of findings (checks/C01.py)
+fn tags(p: &Pat) -> Vec<&'static str> {
+    let mut t = vec![];
+    let (r, nc, dotall) = match p {
+        Pat::Text(_, m) => { if m.b64wide.is_some() { t.push("base64wide"); } return t; }
+        Pat::Hex(r) => (r, false, true),
+        Pat::Regexp(r, m) => (r, m.nocase || m.slash_i, m.dotall),
+    };
+    let _ = dotall;
+    if is_masked_literal(p) && matches!(p, Pat::Regexp(_, m) if m.fullword) { t.push("fullword-on-masked-literal"); }
+    fn is_dot(r: &Re) -> bool { matches!(r, Re::Cls(Cls::Any)) || matches!(r, Re::Cls(Cls::Ranges(true, rs)) if rs.len() == 1 && rs[0] == (10, 10)) }
+    fn seq(r: &Re) -> Vec<&Re> { match r { Re::Cat(v) => v.iter().flat_map(|x| seq(x)).collect(), x => vec![x] } }
+    let items = seq(r);
+    if matches!(p, Pat::Regexp(..)) && matches!(items.last(), Some(Re::Rep(x, ..)) if is_dot(x)) { t.push("trailing-dot-repetition"); }
+    fn any_unsound_class(r: &Re, nc: bool) -> bool {
+        match r {
+            Re::Cls(c @ Cls::Ranges(..)) => matches!(class_to_masked_byte(&cls_set(c, nc)), Some((_, _, false))),
+            Re::Cls(_) | Re::Lit(_) | Re::Assert(_) => false,
+            Re::Cat(v) | Re::Alt(v) => v.iter().any(|x| any_unsound_class(x, nc)),
+            Re::Rep(x, ..) => any_unsound_class(x, nc),
+        }
+    }
+    if any_unsound_class(r, nc) { t.push("class-to-masked-byte-unsound"); }
+    fn nonliteral(r: &Re) -> bool {
+        match r { Re::Cls(Cls::Byte(_)) | Re::Lit(_) | Re::Assert(_) => false, Re::Cls(_) => true,
+                  Re::Alt(v) | Re::Cat(v) => v.iter().any(nonliteral), Re::Rep(x, ..) => nonliteral(x) }
+    }
+    // a counted repetition {n,m} of a group (not a single byte/class) that contains a non-literal
+    fn counted_group(r: &Re) -> bool {
+        match r {
+            Re::Rep(x, _, Some(_), _) if matches!(**x, Re::Cat(_) | Re::Alt(_)) && nonliteral(x) => true,
+            Re::Rep(x, ..) => counted_group(x),
+            Re::Cat(v) | Re::Alt(v) => v.iter().any(counted_group),
+            _ => false,
+        }
+    }
+    if counted_group(r) { t.push("counted-repetition-of-group-with-wildcard"); }
+    for w in items.windows(3) {
+        if matches!(w[0], Re::Rep(x, ..) if is_dot(x)) && !matches!(w[1], Re::Rep(..)) && nonliteral(w[1])
+            && matches!(w[2], Re::Rep(x, mn, mx, _) if is_dot(x) && *mx != Some(*mn)) { t.push("jump-nonliteral-variable-jump"); break; }
+    }
+    t
+}
+
 // ------------------------------------------------------------------ generators: patterns
 const TEXT_BYTES: &[u8] = b"abABxyz019 _-.\x00\xff\x7f\nq";
 fn gen_byte(rng: &mut Rng) -> u8 {
@@ -741,8 +801,8 @@ fn scan_case(p: &Pat, data: &[u8], cond: usize, noise: bool, max_matches: Option
         match max_matches { Some(n) => format!("(Some {})", n), None => "None".into() },
         coq_bool(out.panic.is_some() || out.bytes_wrong.is_some()),
         coq_list(&out.matches, |(s, l, k)| format!("({},{},{})", s, l, coq_key(k))));
-    let replay = format!("{{\"stream\":\"scan\",\"index\":{},\"shape\":{},\"masked_literal\":{},\"data_len\":{},\"source\":{},\"data_hex\":\"{}\",\"max_matches_per_pattern\":{},\"reported\":{},\"panic\":{}}}",
-        idx, json_str(&shape(p)), is_masked_literal(p), data.len(), json_str(&src), hex(data),
+    let replay = format!("{{\"stream\":\"scan\",\"index\":{},\"shape\":{},\"tags\":{},\"data_len\":{},\"source\":{},\"data_hex\":\"{}\",\"max_matches_per_pattern\":{},\"reported\":{},\"panic\":{}}}",
+        idx, json_str(&shape(p)), serde_json::to_string(&tags(p)).unwrap(), data.len(), json_str(&src), hex(data),
         match max_matches { Some(n) => n.to_string(), None => "null".into() },
         json_str(&format!("{:?}", out.matches)), match (&out.panic, &out.bytes_wrong) { (Some(m), _) => json_str(m), (None, Some(m)) => json_str(m), _ => "null".into() });
     Ok((case, replay, out))
@@ -777,6 +837,14 @@ fn corpus() -> Vec<(Pat, Vec<u8>, Option<usize>)> {
         (Pat::Regexp(Re::Cat(vec![lit(b"abc"), Re::Rep(Box::new(any()), 2, Some(4), true)]), rm(&|m| m.dotall = true)), b"xabc12".to_vec(), None),
         // ... and one over the chaining threshold: split_at_large_gaps drops the trailing gap
         (Pat::Regexp(Re::Cat(vec![lit(b"abc"), Re::Rep(Box::new(any()), 5, Some(300), true)]), rm(&|m| m.dotall = true)), b"abc12".to_vec(), None),
+        // a class that class_to_masked_byte (re/hir.rs) mistakes for a masked byte: {00,01,02,40,5f,60,61,62}
+        (Pat::Regexp(Re::Cat(vec![lit(b"c"), Re::Rep(Box::new(Re::Cls(Cls::Ranges(false, vec![(0x5f, 0x62), (0, 2), (0x40, 0x40)]))), 2, Some(2), true), lit(b"b\x85")]), RMods::default()),
+         b"c@_b\x85 c`bb\x85 c \"b\x85".to_vec(), None),
+        // a counted repetition of a group with a wildcard accepts one iteration too many
+        (Pat::Regexp(Re::Rep(Box::new(Re::Cat(vec![any(), lit(b"b")])), 2, Some(3), true), rm(&|m| m.dotall = true)), b"abababababab".to_vec(), None),
+        // one literal byte, a jump of 12, a masked byte, a variable jump: the occurrence is missed
+        (Pat::Hex(Re::Cat(vec![lit(&[0x50]), Re::Rep(Box::new(any()), 12, Some(12), false), Re::Cls(Cls::Mask(0x70, 0xF0)), Re::Rep(Box::new(any()), 0, Some(50), false), lit(&[0x5F])])),
+         b"Pxxxxxxxxxxxxzyy_".to_vec(), None),
         // xor + fullword (differences.md)
         (Pat::Text(b"mississippi".to_vec(), tm(&|m| { m.xor = Some((1, 1)); m.xor_explicit = true; m.fullword = true; })), b"{lhrrhrrhqqh} !lhrrhrrhqqh!".to_vec(), None),
     ]
